@@ -1,41 +1,53 @@
+// gossip: lock-step correspondence cases and property-level monitors for C18 (gossip convergence).
+//
+// One case = one whole scenario: the schedule of process / timer / network steps that was executed on the REAL
+// NodeActors (input) and, per step, the events they published, the GossipMessages they sent and the full state of the
+// touched nodes (output).  coq/Cluster/GossipRun.v replays the schedule on the model and must print the same.
 package main
 
 import (
+	"fmt"
 	"os"
-	"time"
 
 	"github.com/kercylan98/vivid/xverif/lib"
 )
 
+func emit(o *lib.Out, kind string, idx int, s *Sim, hits []hit) {
+	in, out := s.Case()
+	o.Case(kind, len(s.steps) > 10, in, out)
+	o.Stats["steps"] += len(s.steps)
+	for _, h := range hits {
+		o.Monitor(h.name, lib.L(lib.S(kind), lib.NI(idx)), h.detail)
+	}
+}
+
 func main() {
 	f := lib.ParseFlags()
 	o := lib.NewOut(f.Out)
-	s := NewSim()
-	s.now = 1000
-	seed := Cfg{ID: "s", Addr: "127.0.0.1:1", Seeds: []string{"127.0.0.1:1"}, FD: 300 * time.Nanosecond}
-	j := Cfg{ID: "j", Addr: "127.0.0.1:2", Seeds: []string{"127.0.0.1:1"}, FD: 300 * time.Nanosecond}
-	s.Start(seed)
-	s.now += 10
-	s.Start(j)
-	for r := 0; r < 100; r++ {
-		s.now += 50
-		for len(s.net) > 0 {
-			s.Deliver(0)
-		}
-		s.GossipTick(seed.Addr)
-		s.GossipTick(j.Addr)
-		for len(s.net) > 0 {
-			s.Deliver(0)
-		}
-		if r%3 == 0 {
-			s.FdTick(seed.Addr)
-		}
-		if r%3 == 1 {
-			s.FdTick(j.Addr)
+	r := lib.NewRand(f.Seed)
+	thorough := f.Tier == "thorough"
+
+	witnesses(o)
+
+	n := map[string]int{"join": 45, "restart": 12, "leave": 8, "fd": 25}
+	if thorough {
+		n = map[string]int{"join": 1500, "restart": 400, "leave": 200, "fd": 700}
+	}
+	if f.N > 0 {
+		n = map[string]int{"join": f.N, "restart": f.N / 4, "leave": f.N / 4, "fd": f.N / 2}
+	}
+	idx := 0
+	for _, class := range []string{"join", "restart", "leave", "fd"} {
+		for i := 0; i < n[class]; i++ {
+			idx++
+			s, sc, hits := randomScenario(r.Fork(), idx, class, i%5 == 4)
+			emit(o, "scenario-"+class, idx, s, hits)
+			o.Stats[fmt.Sprintf("nodes=%d", len(sc.s.nodes)+len(sc.stopped))]++
+			if os.Getenv("XV_GOSSIP_TRACE") != "" {
+				fmt.Fprintf(os.Stderr, "%s steps=%d hits=%d\n", sc.name, len(s.steps), len(hits))
+			}
 		}
 	}
-	in, out := s.Case()
-	o.Case("demo", true, in, out)
 	o.Close(f.Report)
 	if len(o.Monitors) > 0 {
 		os.Exit(3)
